@@ -28,17 +28,17 @@ type AdmitItem struct {
 }
 
 type AdmitResult struct {
-	States    int            `json:"states"`
-	Attempts  int            `json:"attempts"`
-	Accepted  int            `json:"accepted"`
-	Rejected  int            `json:"rejected"`
-	Panics    int            `json:"panics"`
-	Twins     int            `json:"twins"`
-	Verdicts  map[string]int `json:"verdicts"` // operator → accepted count
-	Viol      []ev.Violation `json:"viol,omitempty"`
-	Samples   []string       `json:"samples,omitempty"`
-	PanicOps  map[string]int `json:"panic_ops"`
-	Distinct  int            `json:"distinct"`
+	States   int            `json:"states"`
+	Attempts int            `json:"attempts"`
+	Accepted int            `json:"accepted"`
+	Rejected int            `json:"rejected"`
+	Panics   int            `json:"panics"`
+	Twins    int            `json:"twins"`
+	Verdicts map[string]int `json:"verdicts"` // operator → accepted count
+	Viol     []ev.Violation `json:"viol,omitempty"`
+	Samples  []string       `json:"samples,omitempty"`
+	PanicOps map[string]int `json:"panic_ops"`
+	Distinct int            `json:"distinct"`
 }
 
 // operator on an event body; returns false if not applicable
